@@ -77,7 +77,7 @@ static int add_extras(struct libwifi_tagged_parameters *tags, int nt, char **t, 
 }
 
 #define TAGGED(T, CREATE, DUMP, LEN, FREE) do { \
-        struct T o; memset(&o, 0x5A, sizeof o); int r; \
+        struct T o; memset(&o, prefill, sizeof o); int r; \
         LIB(r = CREATE); \
         printf("gen %d", r); \
         if (r == 0) { int er = add_extras(&o.tags, nt, t, 12); if (er) printf(" extras=%d", er); \
@@ -123,7 +123,7 @@ static void op_gen(int nt, char **t) {
                libwifi_dump_timing_advert, libwifi_get_timing_advert_length, libwifi_free_timing_advert);
     }
     else if (!strcmp(k, "action") || !strcmp(k, "action_noack")) {
-        struct libwifi_action o; memset(&o, 0x5A, sizeof o); int r;
+        struct libwifi_action o; memset(&o, prefill, sizeof o); int r;
         if (k[6]) LIB(r = libwifi_create_action_no_ack(&o, a1, a2, a3, (uint8_t) tok_ll(t[5])));
         else LIB(r = libwifi_create_action(&o, a1, a2, a3, (uint8_t) tok_ll(t[5])));
         printf("gen %d", r);
@@ -136,11 +136,11 @@ static void op_gen(int nt, char **t) {
         do_dump(&o, (dump_fn) libwifi_dump_action, (len_fn) libwifi_get_action_length, t[nt - 1]);
         LIB(libwifi_free_action(&o));
     }
-    else if (!strcmp(k, "atim")) { struct libwifi_atim o; memset(&o, 0x5A, sizeof o); int r;
+    else if (!strcmp(k, "atim")) { struct libwifi_atim o; memset(&o, prefill, sizeof o); int r;
         LIB(r = libwifi_create_atim(&o, a1, a2, a3)); printf("gen %d img=", r); out_hex((unsigned char *) &o, sizeof o); }
-    else if (!strcmp(k, "rts")) { struct libwifi_rts o; memset(&o, 0x5A, sizeof o); int r;
+    else if (!strcmp(k, "rts")) { struct libwifi_rts o; memset(&o, prefill, sizeof o); int r;
         LIB(r = libwifi_create_rts(&o, a1, a2, (uint16_t) tok_ll(t[5]))); printf("gen %d img=", r); out_hex((unsigned char *) &o, sizeof o); }
-    else if (!strcmp(k, "cts")) { struct libwifi_cts o; memset(&o, 0x5A, sizeof o); int r;
+    else if (!strcmp(k, "cts")) { struct libwifi_cts o; memset(&o, prefill, sizeof o); int r;
         LIB(r = libwifi_create_cts(&o, a1, (uint16_t) tok_ll(t[5]))); printf("gen %d img=", r); out_hex((unsigned char *) &o, sizeof o); }
     else printf("gen unknown-kind");
     __real_free(a1); __real_free(a2); __real_free(a3);
